@@ -247,6 +247,8 @@ def real_thread_stress(ctx, rng, seconds, nthreads=8):
 
 
 def run(ctx):
+    from rv import suiterun
+    suiterun.for_check(ctx, PROPERTY, ['sequence_numbers_issued'])
     rng = ctx.rng
     cfgs = configs()
     real_thread_stress(ctx, rng, 2.5 if ctx.quick else 20)
